@@ -27,7 +27,7 @@ def lit(c, rnd, kinds=SPELL_LIT):
 class Gen:
     """seeded grammar of stylesheets whose abstract tree is known by construction"""
 
-    def __init__(self, rnd, nrules=8, depth=2, f_known=0.0, carry=True, nvars=3):
+    def __init__(self, rnd, nrules=8, depth=2, f_known=0.0, carry=True, nvars=3, bgvars=True, translucent=True):
         self.rnd = rnd
         self.n = 0
         self.nrules = nrules
@@ -35,6 +35,8 @@ class Gen:
         self.f_known = f_known      # probability of constructs in a known-finding input class (F4/F5/F6)
         self.carry = carry
         self.nvars = nvars
+        self.use_bgvars = bgvars
+        self.kinds = SPELL_LIT if translucent else [k for k in SPELL_LIT if k not in ("rgbafn", "hslafn")]
 
     def colour_for(self, cls, bg):
         """a text colour of an outcome class against bg: 'ok' (readable even at 7), 'fix' (just below 4.5), 'hard'"""
@@ -66,7 +68,7 @@ class Gen:
         nodes = []
         vars_ = {}
         # custom properties: text-colour vars (each used by at most one rule unless f_known) and background vars
-        vnames = [f"--c{k}" for k in range(self.nvars)] + [f"--bg{k}" for k in range(2)]
+        vnames = [f"--c{k}" for k in range(self.nvars)] + ([f"--bg{k}" for k in range(2)] if self.use_bgvars else [])
         bgvals = {}
         defs = []
         for k, nme in enumerate(vnames):
@@ -84,7 +86,7 @@ class Gen:
         for nme in list(self.var_defs):
             if self.var_defs[nme] is None:
                 if rnd.random() < 0.5:
-                    self.var_defs[nme] = lit(pairs.rand_colour(rnd), rnd)
+                    self.var_defs[nme] = lit(pairs.rand_colour(rnd), rnd, self.kinds)
                 else:
                     del self.var_defs[nme]
         # chain: occasionally define one var through another
@@ -155,7 +157,7 @@ class Gen:
             c = self.colour_for(cls, bgc)
             form = rnd.random()
             if form < 0.6:
-                textexpr = lit(c, rnd)
+                textexpr = lit(c, rnd, self.kinds)
             elif form < 0.85 and self.free_text_vars:
                 nme = self.free_text_vars.pop()
                 self.var_defs[nme] = lit(c, rnd, ["hex6", "rgbfn", "hslfn", "named"])
@@ -169,7 +171,7 @@ class Gen:
                 nme = rnd.choice([k for k, v in self.var_defs.items() if k.startswith("--c") and v is not None])
                 textexpr = ("var", nme)
             else:
-                textexpr = lit(c, rnd)
+                textexpr = lit(c, rnd, self.kinds)
         extras = []
         for _ in range(rnd.randrange(0, 4)):
             extras.append(rnd.choice(["margin: 0 auto", "font: 12px/1.5 \"Helvetica Neue\", Arial", "border: 1px solid #ccc",
